@@ -99,6 +99,17 @@ def check(rep, tier, seed):
     for _ in range(n):
         t = rng.choice(flat)
         cases.append(R.mk(None, t, dedup_value(rng, t), rng.choice(R.SUFFIXES)))
+    # many distinct strings first (ids beyond every var-int width boundary of the back-reference: 64, 8192), then
+    # repeats of the shortest strings - a repeat is a back-reference however short the string is
+    for nd in ([70, 130, 200] if tier == "quick" else [70, 130, 200, 8200, 8300]):
+        for _ in range(6 if nd < 1000 else 1):
+            distinct = [f"s{i}" for i in range(nd)]
+            rng.shuffle(distinct)
+            tiny = ["", "a", "é", distinct[0], distinct[-1]]
+            tail = [rng.choice(tiny + ["new" + str(k)]) for k in range(40)] + ["", "", "a", "fresh", "fresh", ""]
+            items = [("" if rng.random() < 0.02 else x) for x in distinct[: nd // 2]] + ["", "a"] + distinct[nd // 2:] + tail
+            val = "(0" + "".join(" b" + G.hexs(x.encode()) for x in items) + ")"
+            cases.append(R.mk(None, ("seq", "vec", 0, D), val, "-"))
     # records: v0, evolved with removed / transient names in the header (names from the same alphabet), nested
     def rec_env():
         inner_steps = rng.choice([[], [("rem", "z")], [("rem", "gone")], [("add", "n", "b7a"), ("rem", "zz")]])
